@@ -69,6 +69,20 @@ fn tol_achromatic<T: Fl>(k: &Kind) -> f64 {
     }
 }
 
+/// input class of a known defect family (part of the signature)
+fn defect_class(ka: &Kind, kb: &Kind, g: f64) -> &'static str {
+    let sat_type = matches!(kb, Kind::Hsluv(_) | Kind::Okhsl | Kind::Okhsv | Kind::Okhwb | Kind::Hsl(_) | Kind::Hsv(_) | Kind::Hwb(_));
+    if sat_type && g >= 0.98 {
+        // saturation = chroma / maximum chroma, and the maximum chroma vanishes at white
+        "@saturation-near-white"
+    } else if kb.is_ok_family() && !ka.is_srgb_space() {
+        // greys of a non-sRGB standard reach Oklab through XYZ and M1, whose white is not palette's D65
+        "@oklab-m1-white"
+    } else {
+        ""
+    }
+}
+
 fn grey_class(g: f64) -> &'static str {
     if g == 0.0 {
         "black"
@@ -126,7 +140,7 @@ fn run_graph<T: Fl>(ctx: &Ctx, g: &Graph<T>, levels: usize, total: &mut Collecto
                     if m <= t {
                         c.ratio("grey-achromatic", m / t, || mk("achromatic", json!({"result": r64, "measure": m}), json!(null)));
                     } else {
-                        c.violation(&format!("C14/grey-achromatic/{}/{}/{}->{}/{}", g.name, T::NAME, g.nodes[a].name, g.nodes[b].name, gcls), m, || mk("chroma/saturation of a grey, as a fraction of the range", json!({"result": r64, "measure": pv::report::fnum(m)}), json!({"tol": t})));
+                        c.violation(&format!("C14/grey-achromatic/{}/{}/{}->{}/{}{}", g.name, T::NAME, g.nodes[a].name, g.nodes[b].name, gcls, defect_class(&ka, &kb, gl.to64())), m, || mk("chroma/saturation of a grey, as a fraction of the range", json!({"result": r64, "measure": pv::report::fnum(m)}), json!({"tol": t})));
                     }
                 }
                 // back to equal RGB components
@@ -136,15 +150,15 @@ fn run_graph<T: Fl>(ctx: &Ctx, g: &Graph<T>, levels: usize, total: &mut Collecto
                         tv += 1;
                         if let Ok(back) = pv::catch(|| fb(r)) {
                             let b64 = to64(back);
+                            // the statement asks for *equal RGB components* on the way back (that the
+                            // grey level itself survives is C01's round trip)
                             let spread = achromatic_measure(&ka, b64).unwrap_or(0.0);
-                            let off = (b64[0] - gl.to64()).abs();
-                            // through a saturation-type space near black/white the tolerance of that space applies
                             let t = tol_achromatic::<T>(&kb).max(tol_achromatic::<T>(&ka)) * 5.0;
-                            let m = spread.max(off);
+                            let m = spread;
                             if m <= t {
                                 c.ratio("grey-roundtrip", m / t, || mk("roundtrip", json!({"back": b64}), json!(null)));
                             } else {
-                                c.violation(&format!("C14/grey-roundtrip/{}/{}/{}->{}/{}", g.name, T::NAME, g.nodes[a].name, g.nodes[b].name, gcls), m, || mk("grey -> space -> RGB", json!({"via": r64, "back": b64, "measure": pv::report::fnum(m)}), json!({"equal components": gl.to64(), "tol": t})));
+                                c.violation(&format!("C14/grey-roundtrip/{}/{}/{}->{}/{}{}", g.name, T::NAME, g.nodes[a].name, g.nodes[b].name, gcls, defect_class(&ka, &kb, gl.to64())), m, || mk("grey -> space -> RGB", json!({"via": r64, "back": b64, "measure": pv::report::fnum(m)}), json!({"equal components": gl.to64(), "tol": t})));
                             }
                         }
                     }
@@ -165,7 +179,7 @@ fn run_graph<T: Fl>(ctx: &Ctx, g: &Graph<T>, levels: usize, total: &mut Collecto
                         if d <= t {
                             c.ratio("white", d / t, || mk("white", json!({"result": r64}), json!(w)));
                         } else {
-                            c.violation(&format!("C14/white/{}/{}/{}->{}", g.name, T::NAME, g.nodes[a].name, g.nodes[b].name), d, || mk("white of the RGB standard", json!({"result": r64, "err": d}), json!({"expected": w, "tol": t})));
+                            c.violation(&format!("C14/white/{}/{}/{}->{}{}", g.name, T::NAME, g.nodes[a].name, g.nodes[b].name, if kb.is_ok_family() && !ka.is_srgb_space() { "@oklab-m1-white" } else { "" }), d, || mk("white of the RGB standard", json!({"result": r64, "err": d}), json!({"expected": w, "tol": t})));
                         }
                     }
                     match kb {
@@ -180,7 +194,7 @@ fn run_graph<T: Fl>(ctx: &Ctx, g: &Graph<T>, levels: usize, total: &mut Collecto
                             let d = (r64[0] - 1.0).abs().max(r64[1].abs());
                             let t = if T::NAME == "f32" { 2e-5 } else { 2e-6 };
                             if !(d <= t) {
-                                c.violation(&format!("C14/white/{}/{}/{}->{}", g.name, T::NAME, g.nodes[a].name, g.nodes[b].name), d, || mk("white of the RGB standard", json!({"result": r64}), json!({"l": 1.0, "chroma": 0.0, "tol": t})));
+                                c.violation(&format!("C14/white/{}/{}/{}->{}{}", g.name, T::NAME, g.nodes[a].name, g.nodes[b].name, if !ka.is_srgb_space() { "@oklab-m1-white" } else { "" }), d, || mk("white of the RGB standard", json!({"result": r64}), json!({"l": 1.0, "chroma": 0.0, "tol": t})));
                             }
                         }
                         _ => {}
